@@ -44,16 +44,23 @@ def fourth_card_rule(chk, rule='C04.R6'):
     pair = {p.name: p for p in f.members('Pair')}
     n = 0
     first_bad = None
+    from ..fold import OrdInt
     ranks_sets = list(itertools.permutations((3, 7, 11, 14)))
+    extremes = list(itertools.permutations((2, 3, 13, 14))) + [(14, 14, 2, 2), (2, 14, 14, 2), (13, 2, 2, 13)]     # lowest against highest, equal ranks in different suits
     if chk.tier != 'thorough':
         ranks_sets = ranks_sets[::3]        # 8 of the 24 rank orders in the quick tier
+        extremes = extremes[::2]
+    # three passes: concrete ranks (middle values; the extremes 2 / ace and ties across suits), then the same orders with ORDER-ABSTRACT ranks
+    # (fold.OrdInt): an engine that does arithmetic on ranks leaves the abstraction, so "only the order of the ranks matters" is enforced
+    passes = [('concrete', ranks_sets + extremes), ('order-abstract', ranks_sets)]
+    abstract_error = None
     for trump in (('S', 'H', 'NT') if chk.tier == 'thorough' else ('S', 'NT')):
         for led in ('S', 'D'):
             others = [x for x in ('S', 'H', 'D', 'C') if x != led]
             classes = [led] + ([trump] if trump not in ('NT', led) else []) + [next(x for x in others if x != trump)]
             for suits in itertools.product(classes, repeat=3):
-                for ranks in ranks_sets:
-                    for tn, declarer in ((1, 'S'), (13, 'W')) if ranks in ranks_sets[::4] else ((1, 'S'),):
+                for mode, ranks in [(m_, r_) for m_, rs_ in passes for r_ in rs_]:
+                    for tn, declarer in ((1, 'S'), (13, 'W')) if (mode == 'concrete' and ranks in ranks_sets[::4]) else ((1, 'S'),):
                         n += 1
                         cards = [(ranks[0], led)] + [(r, s) for r, s in zip(ranks[1:], suits)]
                         if len(set(cards)) < 4:
@@ -67,13 +74,19 @@ def fourth_card_rule(chk, rule='C04.R6'):
                             if tn > 1:      # twelve tricks already recorded
                                 filler = f.make('TrickHistory', leader=P['N'], cards=())
                                 eng.fields['playing_history'].fields['_history'] = [filler] * (tn - 1)
-                            cs = [f.make('Card', rank=r, suit=SU[s]) for r, s in cards]
+                            if mode == 'concrete':
+                                cs = [f.make('Card', rank=r, suit=SU[s]) for r, s in cards]
+                            else:
+                                cs = [DV(repo.cls('Card'), {'rank': OrdInt(r, 2, 14), 'suit': SU[s]}) for r, s in cards]
                             for c in cs:
                                 f.call_method(eng, 'play_card', c)
                         except FoldRaise as r_:
                             first_bad = first_bad or (trump, cards, tn, f'raises {r_.kind}')
                             continue
                         except Unsupported as e:
+                            if mode == 'order-abstract':
+                                abstract_error = abstract_error or f'{e} (trump {trump}, cards {[str(r) + s for r, s in cards]})'
+                                continue
                             raise AnalysisError(rule, q, f'play_card left the foldable subset: {e}')
                         tr = [i for i, (r, s) in enumerate(cards) if s == trump]
                         pool = tr if tr else [i for i, (r, s) in enumerate(cards) if s == led]
@@ -94,6 +107,8 @@ def fourth_card_rule(chk, rule='C04.R6'):
                             first_bad = (trump, cards, tn, f'after the trick {diffs or "the recorded trick is not (leader, the four cards in order)"}; the trick is won by card '
                                                            f'{win + 1} ({seat})')
     chk.evals(n)
+    if first_bad is None and abstract_error is not None:
+        raise AnalysisError(rule, q, f'the trick winner depends on more than the order of the ranks - the rank-order classes do not cover every trick: {abstract_error}')
     chk.require(first_bad is None, rule, w, q, 'fourth card of a trick on every (trump, led suit, suit classes, rank order) class',
                 f'on {n} tricks (3 trump denominations x led suits x suit classes of cards 2-4 x 24 rank orders, tricks 1 and 13) the winner leads next, his side is '
                 f'credited once, the trick is recorded with its leader and cards, turn and trick number advance',
